@@ -167,6 +167,22 @@ var c13picked = []struct {
 	{"adapter", "oneway", "afterstalledwrite", []int{20, 250}, []int{1, 5, 20, 50, 100, 250, 500, 1000}},
 	{"adapter", "request", "afterstalledflush", []int{50}, []int{1, 5, 20, 50, 100, 250, 500, 1000}},
 	{"adapter", "oneway", "afterstalledflush", nil, []int{1, 5, 20, 50, 100, 250, 500, 1000}},
+	{"nats", "request", "closedpending", []int{100, 400}, []int{20, 50, 100, 250, 400, 1000}},
+	{"nats", "request", "brokerlost", []int{100, 400}, []int{20, 50, 100, 250, 400, 1000}},
+}
+
+// concurrent late-answer bursts: callers x calls on one transport, timeout in
+// ms; the peer answers every request T+3ms after it saw it
+var c13bursts = []struct {
+	tr              string
+	callers         int
+	quick, thorough []int
+}{
+	{"adapter", 32, []int{2}, []int{2, 3, 5}},
+	{"adapter", 8, nil, []int{2, 5}},
+	{"adapter", 48, nil, []int{2}},
+	{"nats", 16, []int{2}, []int{2, 5}},
+	{"nats", 48, nil, []int{3}},
 }
 
 // the stall patterns per transport and operation
@@ -311,11 +327,20 @@ func c13cases(rng *rand.Rand, thorough bool) (main, sub, controls []c13case) {
 			main = append(main, c13case{Transport: p.tr, Op: p.op, Pattern: p.pat, TimeoutNS: ms(t)})
 		}
 	}
+	for _, b := range c13bursts {
+		ts := b.quick
+		if thorough {
+			ts = b.thorough
+		}
+		for _, t := range ts {
+			sub = append(sub, c13case{Transport: b.tr, Op: "request", Pattern: "lateburst", Variant: fmt.Sprintf("callers=%d", b.callers), TimeoutNS: ms(t)})
+		}
+	}
 	rng.Shuffle(len(main), func(i, j int) { main[i], main[j] = main[j], main[i] })
 	// cases that cost 10 s per attempt when they fail run in the side lane
 	keep := main[:0]
 	for _, c := range main {
-		if c.Pattern == "stalledconn" {
+		if c.Pattern == "stalledconn" || c.Pattern == "closedpending" || c.Pattern == "brokerlost" || strings.HasPrefix(c.Pattern, "hangup:") {
 			sub = append(sub, c)
 		} else {
 			keep = append(keep, c)
@@ -362,7 +387,7 @@ func runC13(tier string, args []string) int {
 		os.Setenv("VERIF_OUT", ev.ScratchDir()) // a replay never overwrites the committed evidence
 	}
 	run := ev.New("C13", tier, "exploration")
-	run.Rule("case = (transport, timeout T, peer stall pattern, Request|Oneway); adapter over a scripted TTransport (silent, response late by T+50ms / 2T / 2T+400ms, Write blocked for 5T or for good, Flush blocked with and without honouring ctx, underlying Open() stalled for 5T / for good while the call is issued), NATS on an embedded broker (subscriber that never replies, or replies late, or the client-broker TCP connection black-holed by a proxy after a healthy control request), or PublishRequest refused by a 4 KiB max_payload broker followed by a request reusing the FContext), a second call issued while the send of an earlier call on the same transport is still stalled, HTTP against httptest (handler answering late, never, stalling the body, or stalling d<T then closing the connection unanswered and staying silent on any further connection - bound T+300ms flat there; http.Client without and with a Timeout of its own above / below T); each case attempted 3 times on fresh transports, minimum elapsed compared with T+max(300ms,T); distinct = (transport, op, pattern, T)")
+	run.Rule("case = (transport, timeout T, peer stall pattern, Request|Oneway); adapter over a scripted TTransport (silent, response late by T+50ms / 2T / 2T+400ms, Write blocked for 5T or for good, Flush blocked with and without honouring ctx, underlying Open() stalled for 5T / for good while the call is issued), NATS on an embedded broker (subscriber that never replies, or replies late, or the client-broker TCP connection black-holed by a proxy after a healthy control request), or PublishRequest refused by a 4 KiB max_payload broker followed by a request reusing the FContext), a second call issued while the send of an earlier call on the same transport is still stalled, the transport closed / the broker connection cut T/4 into a pending call, N concurrent callers x K short-timeout requests on one transport against a peer answering each T+3ms late (slowest call of the burst is what is timed), HTTP against httptest (handler answering late, never, stalling the body, or stalling d<T then closing the connection unanswered and staying silent on any further connection - bound T+300ms flat there; http.Client without and with a Timeout of its own above / below T); each case attempted 3 times on fresh transports, minimum elapsed compared with T+max(300ms,T); distinct = (transport, op, pattern, T)")
 	run.Assume("monotonic clock of the Go runtime; a delay present in all 3 attempts of a case is attributed to the code, not to scheduling")
 	run.Assume("rig.ScriptTransport, the embedded nats-server and net/http/httptest behave as scripted")
 	run.Assume("goroutine ids parsed from runtime.Stack identify the calling goroutine in the full dump")
@@ -381,6 +406,10 @@ func runC13(tier string, args []string) int {
 		return run.Finish()
 	}
 	defer env.stop()
+	env.burstCalls = 120
+	if run.Thorough() {
+		env.burstCalls = 400
+	}
 
 	rng := run.Rand("c13")
 	mainCases, subCases, controls := c13cases(rng, run.Thorough())
@@ -508,6 +537,15 @@ func runCase(env *c13env, c c13case, body func() []byte) caseResult {
 	var res caseResult
 	for i := 0; i < c13Attempts; i++ {
 		var a *attempt
+		if c.Pattern == "lateburst" {
+			a = attemptLateBurst(env, c, env.burstCalls, body())
+			a.N = i + 1
+			res.attempts = append(res.attempts, a)
+			if !a.Returned || a.Harness != "" {
+				break
+			}
+			continue
+		}
 		switch c.Transport {
 		case "adapter":
 			if strings.HasPrefix(c.Pattern, "stallconnect:") {
@@ -522,6 +560,8 @@ func runCase(env *c13env, c c13case, body func() []byte) caseResult {
 				a = attemptNatsStalledConn(env, c, body())
 			} else if c.Pattern == "publishrefused" {
 				a = attemptNatsPublishRefused(env, c, body())
+			} else if c.Pattern == "closedpending" || c.Pattern == "brokerlost" {
+				a = attemptNatsFaultWhilePending(env, c, body())
 			} else {
 				a = attemptNats(env, c, body())
 			}
